@@ -90,59 +90,71 @@ theorem pull_append (parse : Bool → List Byte → ParseRes) (n m : Nat) (buf p
 
 /-! ### `readLine` -/
 
-theorem readLineGo_append (raw esc : Bool) (p S : List Byte) (acc cs : List (Char × Bool))
-    (r : List Byte) (h : readLineGo raw esc p acc = (cs, true, r)) :
-    readLineGo raw esc (p ++ S) acc = (cs, true, r ++ S) := by
-  induction p generalizing esc acc with
-  | nil => cases esc <;> simp [readLineGo] at h
+theorem readLineGo_append (raw esc : Bool) (buf p S : List Byte) (acc cs : List (Char × Bool))
+    (r : List Byte) (h : readLineGo raw esc buf p acc = (cs, .found, r)) :
+    readLineGo raw esc buf (p ++ S) acc = (cs, .found, r ++ S) := by
+  induction p generalizing esc buf acc with
+  | nil => by_cases hb : buf = [] <;> simp [readLineGo, hb] at h
   | cons b rest ih =>
-    cases esc with
-    | true =>
-      simp only [readLineGo, List.cons_append] at h ⊢
-      by_cases hb : b = NL
-      · simp only [hb, if_true] at h ⊢; exact ih _ _ h
-      · simp only [hb, if_false] at h ⊢; exact ih _ _ h
-    | false =>
-      simp only [readLineGo, List.cons_append] at h ⊢
-      by_cases hb : b = NL
-      · simp only [hb, if_true] at h ⊢
-        simp only [Prod.mk.injEq, true_and] at h
-        simp [h.1, h.2]
-      · simp only [hb, if_false] at h ⊢
-        by_cases hbs : b = 92 ∧ (!raw) = true
-        · simp only [hbs, and_self, if_true] at h ⊢; exact ih _ _ h
-        · simp only [hbs, if_false] at h ⊢; exact ih _ _ h
+    simp only [readLineGo, List.cons_append] at h ⊢
+    cases hu : utf8Check (buf ++ [b]) with
+    | more => simp only [hu] at h ⊢; exact ih _ _ _ h
+    | bad => simp [hu] at h
+    | ok code =>
+      simp only [hu] at h ⊢
+      cases esc with
+      | true =>
+        simp only [if_true] at h ⊢
+        by_cases hc : code = 10
+        · simp only [hc, if_true] at h ⊢; exact ih _ _ _ h
+        · simp only [hc, if_false] at h ⊢; exact ih _ _ _ h
+      | false =>
+        simp only [Bool.false_eq_true, if_false] at h ⊢
+        by_cases hc : code = 10
+        · simp only [hc, if_true] at h ⊢
+          simp only [Prod.mk.injEq, true_and] at h
+          simp [h.1, h.2]
+        · simp only [hc, if_false] at h ⊢
+          by_cases hbs : code = 92 ∧ (!raw) = true
+          · simp only [hbs, and_self, if_true] at h ⊢; exact ih _ _ _ h
+          · simp only [hbs, if_false] at h ⊢; exact ih _ _ _ h
 
 theorem readLine_append (raw : Bool) (p S : List Byte) (acc cs : List (Char × Bool)) (r : List Byte)
-    (h : readLine raw p acc = (cs, true, r)) :
-    readLine raw (p ++ S) acc = (cs, true, r ++ S) := readLineGo_append raw false p S acc cs r h
+    (h : readLine raw p acc = (cs, .found, r)) :
+    readLine raw (p ++ S) acc = (cs, .found, r ++ S) := readLineGo_append raw false [] p S acc cs r h
 
-theorem readLineGo_suffix (raw esc : Bool) (p : List Byte) (acc : List (Char × Bool)) :
-    ∃ pre, pre ++ (readLineGo raw esc p acc).2.2 = p := by
-  induction p generalizing esc acc with
-  | nil => exact ⟨[], by cases esc <;> simp [readLineGo]⟩
+theorem readLineGo_suffix (raw esc : Bool) (buf p : List Byte) (acc : List (Char × Bool)) :
+    ∃ pre, pre ++ (readLineGo raw esc buf p acc).2.2 = p := by
+  induction p generalizing esc buf acc with
+  | nil => exact ⟨[], by simp [readLineGo]⟩
   | cons b rest ih =>
-    cases esc with
-    | true =>
-      simp only [readLineGo]
-      by_cases hb : b = NL
-      · simp only [hb, if_true]; obtain ⟨pre, hp⟩ := ih false acc; exact ⟨NL :: pre, by simp [hp]⟩
-      · simp only [hb, if_false]
-        obtain ⟨pre, hp⟩ := ih false (acc ++ [(Char.ofNat b.toNat, true)])
-        exact ⟨b :: pre, by simp [hp]⟩
-    | false =>
-      simp only [readLineGo]
-      by_cases hb : b = NL
-      · simp only [hb, if_true]; exact ⟨[NL], by simp⟩
-      · simp only [hb, if_false]
-        by_cases hbs : b = 92 ∧ (!raw) = true
-        · simp only [hbs, and_self, if_true]
-          obtain ⟨pre, hp⟩ := ih true acc; exact ⟨92 :: pre, by simp [hp]⟩
-        · simp only [hbs, if_false]
-          obtain ⟨pre, hp⟩ := ih false (acc ++ [(Char.ofNat b.toNat, false)])
+    simp only [readLineGo]
+    cases hu : utf8Check (buf ++ [b]) with
+    | more => obtain ⟨pre, hp⟩ := ih esc (buf ++ [b]) acc; exact ⟨b :: pre, by simp [hp]⟩
+    | bad => exact ⟨[b], by simp⟩
+    | ok code =>
+      simp only []
+      cases esc with
+      | true =>
+        simp only [if_true]
+        by_cases hc : code = 10
+        · simp only [hc, if_true]; obtain ⟨pre, hp⟩ := ih false [] acc; exact ⟨b :: pre, by simp [hp]⟩
+        · simp only [hc, if_false]
+          obtain ⟨pre, hp⟩ := ih false [] (acc ++ [(Char.ofNat code, true)])
           exact ⟨b :: pre, by simp [hp]⟩
+      | false =>
+        simp only [Bool.false_eq_true, if_false]
+        by_cases hc : code = 10
+        · simp only [hc, if_true]; exact ⟨[b], by simp⟩
+        · simp only [hc, if_false]
+          by_cases hbs : code = 92 ∧ (!raw) = true
+          · simp only [hbs, and_self, if_true]
+            obtain ⟨pre, hp⟩ := ih true [] acc; exact ⟨b :: pre, by simp [hp]⟩
+          · simp only [hbs, if_false]
+            obtain ⟨pre, hp⟩ := ih false [] (acc ++ [(Char.ofNat code, false)])
+            exact ⟨b :: pre, by simp [hp]⟩
 
 theorem readLine_suffix (raw : Bool) (p : List Byte) (acc : List (Char × Bool)) :
-    ∃ pre, pre ++ (readLine raw p acc).2.2 = p := readLineGo_suffix raw false p acc
+    ∃ pre, pre ++ (readLine raw p acc).2.2 = p := readLineGo_suffix raw false [] p acc
 
 end YashModel.Input
